@@ -72,7 +72,7 @@ func zScalarsSym(v *ZScalars, k int) {
 }
 
 func rtZScalars(v *ZScalars) {
-	typMap, nameMap := ExtractTypeNameMap(v)
+	typMap, nameMap := vExtract(v)
 	bs, err := ToBytes(v, nameMap)
 	vAssert("encode-noerr", err == nil)
 	out, err := ToObject(bs, typMap)
@@ -105,7 +105,7 @@ func H_C01_nested() {
 	if vChoice("p", 2) == 1 {
 		v.P = vInner("p")
 	}
-	typMap, nameMap := ExtractTypeNameMap(v)
+	typMap, nameMap := vExtract(v)
 	bs, err := ToBytes(v, nameMap)
 	vAssert("encode-noerr", err == nil)
 	out, err := ToObject(bs, typMap)
@@ -119,7 +119,7 @@ func H_C01_nested() {
 func H_C01_embed() {
 	v := &ZEmbed{X: vInt32("x")}
 	v.ZInner = *vInner("e")
-	typMap, nameMap := ExtractTypeNameMap(v)
+	typMap, nameMap := vExtract(v)
 	bs, err := ToBytes(v, nameMap)
 	vAssert("encode-noerr", err == nil)
 	out, err := ToObject(bs, typMap)
@@ -190,7 +190,7 @@ func H_C01_lists() {
 			v.Ps[pos] = vInner("p")
 		}
 	}
-	typMap, nameMap := ExtractTypeNameMap(v)
+	typMap, nameMap := vExtract(v)
 	bs, err := ToBytes(v, nameMap)
 	vAssert("encode-noerr", err == nil)
 	out, err := ToObject(bs, typMap)
@@ -217,7 +217,7 @@ func H_C01_maps() {
 		}
 		vAssume(len(v.M2) == n)
 	}
-	typMap, nameMap := ExtractTypeNameMap(v)
+	typMap, nameMap := vExtract(v)
 	bs, err := ToBytes(v, nameMap)
 	vAssert("encode-noerr", err == nil)
 	out, err := ToObject(bs, typMap)
